@@ -251,6 +251,10 @@ type Termer struct {
 	memo    map[ssa.Value]string
 	active  map[ssa.Value]bool
 	KeepConv bool
+	// Versioned: loads from address-taken locals carry a version so that a
+	// read before and a read after a possible mutation are different terms.
+	Versioned bool
+	curLoad   ssa.Instruction
 }
 
 func NewTermer(fn *ssa.Function) *Termer {
@@ -462,7 +466,11 @@ func (t *Termer) term(v ssa.Value) string {
 	case *ssa.UnOp:
 		switch x.Op {
 		case token.MUL:
-			return t.load(x.X)
+			saved := t.curLoad
+			t.curLoad = x
+			s := t.load(x.X)
+			t.curLoad = saved
+			return s
 		case token.ARROW:
 			return "<-" + t.T(x.X)
 		case token.NOT:
@@ -643,7 +651,128 @@ func (t *Termer) load(addr ssa.Value) string {
 		}
 		return "zero"
 	}
+	if root != nil && t.Versioned {
+		ver, init := allocVersion(root, addr, t.curLoad)
+		if init != nil && len(fpath) == 0 {
+			return t.T(init) // still holds the value it was initialised with
+		}
+		if init != nil {
+			s := t.T(init)
+			ty := init.Type()
+			for _, fi := range fpath {
+				if st, ok := ty.Underlying().(*types.Struct); ok {
+					s += "." + st.Field(fi).Name()
+					ty = st.Field(fi).Type()
+				}
+			}
+			return s
+		}
+		return t.path(addr) + "@" + ver
+	}
 	return t.path(addr)
+}
+
+// allocVersion distinguishes reads of an address-taken local that may be
+// separated by a mutation (a store, or a call that received its address):
+// the version is the number of mutators dominating the read when every
+// mutator that can reach the read dominates it, and unique otherwise.
+func allocVersion(root *ssa.Alloc, addr ssa.Value, cur ssa.Instruction) (string, ssa.Value) {
+	load := cur
+	if refs := addr.Referrers(); refs != nil && load == nil {
+		for _, r := range *refs {
+			if u, ok := r.(*ssa.UnOp); ok && u.Op == token.MUL {
+				load = u
+			}
+		}
+	}
+	if in, ok := addr.(ssa.Instruction); ok && load == nil {
+		load = in
+	}
+	if load == nil {
+		return "?", nil
+	}
+	var muts []ssa.Instruction
+	var visit func(v ssa.Value, d int)
+	visit = func(v ssa.Value, d int) {
+		refs := v.Referrers()
+		if refs == nil || d > 4 {
+			return
+		}
+		for _, r := range *refs {
+			switch u := r.(type) {
+			case *ssa.Store:
+				if u.Addr == v {
+					muts = append(muts, u)
+				}
+			case *ssa.FieldAddr:
+				visit(u, d+1)
+			case *ssa.IndexAddr:
+				visit(u, d+1)
+			case ssa.CallInstruction:
+				muts = append(muts, u)
+			case *ssa.MakeClosure:
+				muts = append(muts, u)
+			}
+		}
+	}
+	visit(root, 0)
+	n := 0
+	var only ssa.Instruction
+	for _, m := range muts {
+		if m == load {
+			continue
+		}
+		if InstrDominates(m, load) {
+			n++
+			only = m
+			continue
+		}
+		if instrReaches(m, load) {
+			return "u" + load.(ssa.Value).Name(), nil
+		}
+	}
+	if n == 1 {
+		// the single dominating mutator is the initialising store of a parameter:
+		// the cell still holds the parameter's value
+		if st, ok := only.(*ssa.Store); ok && st.Addr == root {
+			if _, isParam := st.Val.(*ssa.Parameter); isParam {
+				return "1", st.Val
+			}
+		}
+	}
+	return fmt.Sprint(n), nil
+}
+
+// instrReaches: some path leads from a to b.
+func instrReaches(a, b ssa.Instruction) bool {
+	if a.Block() == b.Block() {
+		for _, in := range a.Block().Instrs {
+			if in == a {
+				return true // a before b in the block
+			}
+			if in == b {
+				break
+			}
+		}
+	}
+	seen := map[int]bool{}
+	stack := []*ssa.BasicBlock{}
+	for _, s := range a.Block().Succs {
+		stack = append(stack, s)
+	}
+	for len(stack) > 0 {
+		x := stack[len(stack)-1]
+		stack = stack[:len(stack)-1]
+		if seen[x.Index] {
+			continue
+		}
+		seen[x.Index] = true
+		if x == b.Block() {
+			return true
+		}
+		stack = append(stack, x.Succs...)
+	}
+	return false
 }
 
 // allocRoot follows FieldAddr chains down to an Alloc; returns the alloc and
